@@ -12,6 +12,9 @@ type Entry struct {
 	Fn    Check
 	// Shards: number of worker processes for the quick / thorough tier (0 or 1 = run in this process).
 	ShardsQuick, ShardsThorough int
+	// Prepare (optional) runs once in the parent before the shard processes start; what it writes into dir
+	// is available to every shard through the VERIF_SHARED_DIR environment variable.
+	Prepare func(tier, dir string) error
 }
 
 var Registry = map[string]Entry{}
@@ -21,4 +24,11 @@ func Register(id, level string, fn Check) { Registry[id] = Entry{ID: id, Level: 
 // RegisterSharded registers a check whose work is split over worker processes (ev.Shard tells each its part).
 func RegisterSharded(id, level string, quick, thorough int, fn Check) {
 	Registry[id] = Entry{ID: id, Level: level, Fn: fn, ShardsQuick: quick, ShardsThorough: thorough}
+}
+
+// SetPrepare attaches a Prepare step to a registered check.
+func SetPrepare(id string, fn func(tier, dir string) error) {
+	e := Registry[id]
+	e.Prepare = fn
+	Registry[id] = e
 }
